@@ -54,7 +54,7 @@ type BSCase struct {
 	Twins bool `json:"twins,omitempty"`
 }
 
-const c15Rule = "rapid-generated sequences of blockstore calls (Put, PutMany, Get, Has, GetSize, DeleteBlock, HashOnRead on/off), each with a live or an already cancelled context, over blocks of 0..200 bytes (+70 KiB) addressed by CIDv0/v1 x raw/dag-pb/dag-cbor x sha2-256/sha2-512/sha3-512/blake2b-256/blake2b-512/identity up to 300 bytes (multihashes of more than 64 bytes included; sha2 digests also truncated, one length per function and case) built with Prefix.Sum, CID variants of one multihash used interchangeably, deliberately mismatching (data, CID) pairs, 8..12 index bits so blocks share buckets, optionally with the periodic flusher running, and close/reopen of the blockstore between calls; " +
+const c15Rule = "rapid-generated sequences of blockstore calls (Put, PutMany, Get, Has, GetSize, DeleteBlock, HashOnRead on/off), each with a live or an already cancelled context, over blocks of 0..200 bytes (+70 KiB) addressed by CIDv0/v1 x raw/dag-pb/dag-cbor x sha2-256/sha2-512/sha3-512/blake2b-256/blake2b-512/identity up to 300 bytes (multihashes of more than 64 bytes included; in a third of the cases the identity-addressed blocks share a common beginning, so that they meet in one bucket with shared stored prefixes and a delete of an unknown CID lands on a stored block's entry; sha2 digests also truncated, one length per function and case) built with Prefix.Sum, CID variants of one multihash used interchangeably, deliberately mismatching (data, CID) pairs, 8..12 index bits so blocks share buckets, optionally with the periodic flusher running, and close/reopen of the blockstore between calls; " +
 	"oracle = map keyed by multihash (first Put wins, duplicates silent) + contract clauses: same CID and bytes back (and the last 8 returned blocks keep their bytes through all later calls), Has/GetSize agree with Get, delete => ipld.IsNotFound, unknown => IsNotFound, cancelled context => error and no effect (verified by later reads), hash-on-read enabled => ErrWrongHash exactly for stored bytes that do not hash to the requested CID, disabled => bytes returned; " +
 	"non-trivial = >=2 CID variants of one multihash used, a delete of a present block, HashOnRead toggled in both directions; distinct = distinct canonical JSON of the case"
 
@@ -76,6 +76,7 @@ func genBS(t *rapid.T) BSCase {
 	if weighted(t, "longid", []int{4, 1}) == 1 {
 		idLen = []int{40, 65, 100, 300}[rapid.IntRange(0, 3).Draw(t, "idlenlong")]
 	}
+	idStem := weighted(t, "idstem", []int{2, 1}) == 1
 	trunc := map[uint64]int{}
 	if weighted(t, "truncated", []int{3, 1}) == 1 {
 		trunc[mh.SHA2_256] = []int{20, 16, 28}[rapid.IntRange(0, 2).Draw(t, "mhlen256")]
@@ -86,6 +87,9 @@ func genBS(t *rapid.T) BSCase {
 	for i := 0; i < nb; i++ {
 		var b BSBlock
 		b.Hash = []uint64{mh.SHA2_256, mh.SHA2_512, mh.BLAKE2B_MIN + 31, mh.IDENTITY, mh.BLAKE2B_MAX, mh.SHA3_512}[weighted(t, "hash", []int{6, 2, 1, 2, 1, 1})]
+		if idStem && weighted(t, "idmore", []int{1, 1}) == 1 {
+			b.Hash = mh.IDENTITY
+		}
 		n := []int{0, 1, 3, 10, 50, 200, 70000}[weighted(t, "len", []int{3, 2, 3, 5, 4, 2, 0})]
 		if weighted(t, "huge", []int{60, 1}) == 1 {
 			n = 70000
@@ -99,6 +103,20 @@ func genBS(t *rapid.T) BSCase {
 		}
 		if n >= 2 {
 			b.Data[0], b.Data[1] = byte(i), byte(i>>8)
+		}
+		if b.Hash == mh.IDENTITY && idStem && n >= 4 {
+			// Identity-addressed blocks with a common beginning (inlined blocks
+			// with the same header): same bucket, shared stored prefixes; the
+			// block number sits at the end.
+			for j := range b.Data {
+				b.Data[j] = byte(0x40 + j%7)
+			}
+			b.Data[n-1], b.Data[n-2] = byte(i), byte(i>>8)^0x5a
+			if n > 200 {
+				// Stored prefixes of 256 bytes or more are the subject of the
+				// known finding KF-C08: keep the shared part below that.
+				b.Data[200], b.Data[201] = byte(i), byte(i>>8)^0x5a
+			}
 		}
 		b.Wrong = b.Hash != mh.IDENTITY && weighted(t, "wrong", []int{5, 1}) == 1
 		// A multihash may carry a truncated digest (Prefix.MhLength). All blocks
